@@ -7,6 +7,7 @@ CONSTANTS
   TokenPerCall = FALSE
   TokenForFailed = FALSE
   UdsKeepsToken = TRUE
+  ServeWhilePending = FALSE
 SPECIFICATION Spec
 INVARIANTS B_TokensArePositions C01_OwnListenersService B_NoPanic B_SvcOwner
 CHECK_DEADLOCK FALSE
